@@ -926,3 +926,121 @@ write_xref_one!(c03_write_xref_ids_1_4, 0b10010);
 write_xref_one!(c03_write_xref_ids_2, 0b00100);
 write_xref_one!(c03_write_xref_ids_1_2_3, 0b01110);
 write_xref_one!(c03_write_xref_ids_4, 0b10000);
+
+// ---- arrays: separators between adjacent elements (7.3.6), elements on the stack (concrete kinds) --
+/// Scans one token of a written array element sequence: returns the end of a regular-character run.
+fn regular_run_end(s: &[u8], mut pos: usize) -> usize {
+    while pos < s.len() && is_regular(s[pos]) {
+        pos += 1;
+    }
+    pos
+}
+
+/// `[i j]` for all pairs of i8 integers: two integer tokens, separated, read back by a decimal reader.
+#[kani::proof]
+#[kani::unwind(8)]
+fn c01_array_int_int() {
+    let i: i8 = kani::any();
+    let j: i8 = kani::any();
+    let arr = [Object::Integer(i as i64), Object::Integer(j as i64)];
+    let mut sink = ArrSink::<16>::new();
+    let r = Writer::write_array(&mut sink, &arr);
+    assert!(r.is_ok());
+    let o = sink.out();
+    assert!(o.len() >= 5 && o[0] == b'[' && o[o.len() - 1] == b']', "array brackets");
+    let e1 = regular_run_end(o, 1);
+    assert!(ref_read_int(&o[1..e1]) == Some(i as i128), "first element does not read back (merged with its neighbour?)");
+    assert!(e1 < o.len() && is_ws(o[e1]), "two numbers must be separated by white space");
+    let e2 = regular_run_end(o, e1 + 1);
+    assert!(ref_read_int(&o[e1 + 1..e2]) == Some(j as i128), "second element does not read back");
+    assert!(e2 == o.len() - 1, "trailing bytes inside the array");
+    kani::cover!(i < 0 && j < 0);
+    std::mem::forget(r);
+}
+
+/// `[/n X]` for a concrete kind X: a name followed by a keyword or number must not merge with it.
+fn array_name_then(second: Object, expect: &[u8]) {
+    let n: u8 = kani::any();
+    kani::assume(n >= 33 && n <= 126 && is_regular(n) && n != b'#');
+    let arr = [Object::Name(vec![n]), second];
+    let mut sink = ArrSink::<16>::new();
+    let r = Writer::write_array(&mut sink, &arr);
+    assert!(r.is_ok());
+    let o = sink.out();
+    assert!(o.len() >= 6 && o[0] == b'[' && o[1] == b'/' && o[2] == n, "name element");
+    assert!(is_ws(o[3]), "a name followed by a keyword/number must be separated from it by white space");
+    let e = regular_run_end(o, 4);
+    assert!(e == o.len() - 1 && o[e] == b']');
+    assert!(e - 4 == expect.len());
+    let mut i = 0;
+    while i < expect.len() {
+        assert!(o[4 + i] == expect[i], "second element spelled wrongly");
+        i += 1;
+    }
+    kani::cover!(n == b'A');
+    std::mem::forget(r);
+    std::mem::forget(arr);
+}
+#[kani::proof]
+#[kani::unwind(19)]
+fn c01_array_name_then_null() {
+    array_name_then(Object::Null, b"null");
+}
+#[kani::proof]
+#[kani::unwind(19)]
+fn c01_array_name_then_true() {
+    array_name_then(Object::Boolean(true), b"true");
+}
+#[kani::proof]
+#[kani::unwind(19)]
+fn c01_array_name_then_int() {
+    array_name_then(Object::Integer(7), b"7");
+}
+
+/// Keyword/number pairs: `[true 5]`, `[null null]`, `[3 0 R 5]` keep their tokens apart.
+#[kani::proof]
+#[kani::unwind(8)]
+fn c01_array_scalar_pairs() {
+    let i: u8 = kani::any();
+    kani::assume(i <= 9);
+    let mut s1 = ArrSink::<16>::new();
+    let mut s2 = ArrSink::<16>::new();
+    let mut s3 = ArrSink::<16>::new();
+    assert!(Writer::write_array(&mut s1, &[Object::Boolean(true), Object::Integer(i as i64)]).is_ok());
+    assert!(Writer::write_array(&mut s2, &[Object::Null, Object::Null]).is_ok());
+    assert!(Writer::write_array(&mut s3, &[Object::Reference((3, 0)), Object::Integer(i as i64)]).is_ok());
+    let d = b'0' + i;
+    assert!(s1.n == 8 && s1.b[5] == b' ' && s1.b[6] == d && s1.b[0] == b'[' && s1.b[1] == b't' && s1.b[7] == b']', "[true N]");
+    assert!(s2.n == 11 && s2.b[5] == b' ' && s2.b[1] == b'n' && s2.b[6] == b'n' && s2.b[10] == b']', "[null null]");
+    assert!(s3.n == 9 && s3.b[1] == b'3' && s3.b[2] == b' ' && s3.b[3] == b'0' && s3.b[4] == b' ' && s3.b[5] == b'R' && s3.b[6] == b' ' && s3.b[7] == d && s3.b[8] == b']', "[3 0 R N]");
+    kani::cover!(i == 9);
+}
+
+/// Keywords and references: exact spellings (7.3.2, 7.3.9, 7.3.10).
+#[kani::proof]
+#[kani::unwind(8)]
+fn c01_keywords_and_reference() {
+    let id: u16 = kani::any();
+    let g: u8 = kani::any();
+    let b: bool = kani::any();
+    let mut s1 = ArrSink::<8>::new();
+    let mut s2 = ArrSink::<8>::new();
+    let mut s3 = ArrSink::<16>::new();
+    assert!(Writer::write_object(&mut s1, &Object::Null).is_ok());
+    assert!(Writer::write_object(&mut s2, &Object::Boolean(b)).is_ok());
+    assert!(Writer::write_object(&mut s3, &Object::Reference((id as u32, g as u16))).is_ok());
+    assert!(s1.n == 4 && s1.b[0] == b'n' && s1.b[1] == b'u' && s1.b[2] == b'l' && s1.b[3] == b'l');
+    if b {
+        assert!(s2.n == 4 && s2.b[0] == b't' && s2.b[1] == b'r' && s2.b[2] == b'u' && s2.b[3] == b'e');
+    } else {
+        assert!(s2.n == 5 && s2.b[0] == b'f' && s2.b[4] == b'e');
+    }
+    let o = s3.out();
+    let mut pos = 0;
+    assert!(read_uint(o, &mut pos) == Some(id as u32), "reference object number");
+    assert!(pos < o.len() && o[pos] == b' ');
+    pos += 1;
+    assert!(read_uint(o, &mut pos) == Some(g as u32), "reference generation");
+    assert!(pos + 2 == o.len() && o[pos] == b' ' && o[pos + 1] == b'R', "reference keyword");
+    kani::cover!(id > 9999 && g > 99);
+}
